@@ -67,6 +67,19 @@ var (
 	procs    = 1
 )
 
+// The program's own package-level state: every file of cmd/php-parser registers
+// a function that re-initialises its package-level variables; ResetProgram runs
+// them, so that each simulated invocation starts like a fresh process.
+var programResets []func()
+
+func RegisterReset(f func()) { programResets = append(programResets, f) }
+
+func ResetProgram() {
+	for _, f := range programResets {
+		f()
+	}
+}
+
 // Reset starts a new simulated invocation.
 func Reset(args []string, nprocs int) {
 	Stdout.reset()
